@@ -23,9 +23,9 @@ const Property = "C02"
 // adapters: one face for the interface{}-keyed and the generic lockers
 
 type locker interface {
-	lock(keys []int, write bool)   // len(keys)==1: single-key entry point; else Locks/RLocks
-	unlock(keys []int, write bool) // matching unlock
-	multi() bool                   // has Locks/RLocks
+	lock(keys []int, write, multi bool)   // multi or len(keys)>1: Locks/RLocks; else the single-key entry point
+	unlock(keys []int, write, multi bool) // matching unlock
+	multi() bool                          // has Locks/RLocks
 	raw() interface{}
 }
 
@@ -40,14 +40,14 @@ func (a *anyLocker) key(k int) interface{} {
 	}
 	return k
 }
-func (a *anyLocker) lock(keys []int, write bool) {
+func (a *anyLocker) lock(keys []int, write, _ bool) {
 	if write {
 		a.l.Lock(a.key(keys[0]))
 	} else {
 		a.l.RLock(a.key(keys[0]))
 	}
 }
-func (a *anyLocker) unlock(keys []int, write bool) {
+func (a *anyLocker) unlock(keys []int, write, _ bool) {
 	if write {
 		a.l.Unlock(a.key(keys[0]))
 	} else {
@@ -70,11 +70,11 @@ func (a *tLocker[T]) ks(keys []int) []T {
 	}
 	return out
 }
-func (a *tLocker[T]) lock(keys []int, write bool) {
+func (a *tLocker[T]) lock(keys []int, write, multi bool) {
 	switch {
-	case len(keys) == 1 && write:
+	case len(keys) == 1 && !multi && write:
 		a.l.Lock(a.conv(keys[0]))
-	case len(keys) == 1:
+	case len(keys) == 1 && !multi:
 		a.l.RLock(a.conv(keys[0]))
 	case write:
 		a.l.Locks(a.ks(keys))
@@ -82,11 +82,11 @@ func (a *tLocker[T]) lock(keys []int, write bool) {
 		a.l.RLocks(a.ks(keys))
 	}
 }
-func (a *tLocker[T]) unlock(keys []int, write bool) {
+func (a *tLocker[T]) unlock(keys []int, write, multi bool) {
 	switch {
-	case len(keys) == 1 && write:
+	case len(keys) == 1 && !multi && write:
 		a.l.Unlock(a.conv(keys[0]))
-	case len(keys) == 1:
+	case len(keys) == 1 && !multi:
 		a.l.RUnlock(a.conv(keys[0]))
 	case write:
 		a.l.Unlocks(a.ks(keys))
@@ -148,11 +148,11 @@ type strideAny struct {
 	stride int
 }
 
-func (s *strideAny) lock(keys []int, write bool) {
-	s.anyLocker.lock([]int{keys[0] * s.stride}, write)
+func (s *strideAny) lock(keys []int, write, multi bool) {
+	s.anyLocker.lock([]int{keys[0] * s.stride}, write, multi)
 }
-func (s *strideAny) unlock(keys []int, write bool) {
-	s.anyLocker.unlock([]int{keys[0] * s.stride}, write)
+func (s *strideAny) unlock(keys []int, write, multi bool) {
+	s.anyLocker.unlock([]int{keys[0] * s.stride}, write, multi)
 }
 
 func genConfig(t *rapid.T) Config {
@@ -195,6 +195,7 @@ type Step struct {
 	Actor int    `json:"actor"`
 	Write bool   `json:"write,omitempty"`
 	Keys  []int  `json:"keys,omitempty"`
+	Multi bool   `json:"multi,omitempty"` // use Locks/RLocks even for a one-key list
 }
 
 type CaseCtl struct {
@@ -245,7 +246,11 @@ func GenCtl(t *rapid.T) CaseCtl {
 		}
 		a := &genActor{keys: genKeyList(t, c.NKeys, isMultiType(c.Type)), write: rapid.IntRange(0, 9).Draw(t, "write") < 5}
 		actors = append(actors, a)
-		c.Steps = append(c.Steps, Step{Op: "lock", Actor: len(actors) - 1, Write: a.write, Keys: a.keys})
+		st := Step{Op: "lock", Actor: len(actors) - 1, Write: a.write, Keys: a.keys}
+		if len(a.keys) == 1 && isMultiType(c.Type) {
+			st.Multi = rapid.IntRange(0, 3).Draw(t, "multi1") == 0
+		}
+		c.Steps = append(c.Steps, st)
 	}
 	return c
 }
@@ -253,6 +258,7 @@ func GenCtl(t *rapid.T) CaseCtl {
 type actorRun struct {
 	keys     []int
 	write    bool
+	multi    bool
 	op       *vkit.Op
 	unlockOp *vkit.Op
 	wantFree bool // an unlock step was issued while the actor was still parked: unlock as soon as it returns
@@ -285,7 +291,7 @@ func ExecCtl(c CaseCtl) *vkit.Result {
 
 	doUnlock := func(ai int) {
 		r := runs[ai]
-		r.unlockOp = sched.Go(fmt.Sprintf("unlock-%d", ai), func() { lk.unlock(r.keys, r.write) })
+		r.unlockOp = sched.Go(fmt.Sprintf("unlock-%d", ai), func() { lk.unlock(r.keys, r.write, r.multi) })
 	}
 
 	defer func() {
@@ -417,7 +423,10 @@ func ExecCtl(c CaseCtl) *vkit.Result {
 				res.Skip("bad-lock-step")
 				continue
 			}
-			r := &actorRun{keys: append([]int(nil), keys...), write: st.Write}
+			r := &actorRun{keys: append([]int(nil), keys...), write: st.Write, multi: st.Multi && lk.multi()}
+			if r.multi && len(keys) == 1 {
+				res.Class("one-key-multi-call")
+			}
 			runs = append(runs, r)
 			if len(keys) > 1 {
 				res.Class("multi-key")
@@ -425,7 +434,7 @@ func ExecCtl(c CaseCtl) *vkit.Result {
 					res.Class("multi-key-spanning-shards")
 				}
 			}
-			r.op = sched.Go(fmt.Sprintf("lock-%d", len(runs)-1), func() { lk.lock(r.keys, r.write) })
+			r.op = sched.Go(fmt.Sprintf("lock-%d", len(runs)-1), func() { lk.lock(r.keys, r.write, r.multi) })
 		case "unlock":
 			if st.Actor < 0 || st.Actor >= len(runs) {
 				res.Skip("unlock-of-unknown")
@@ -495,6 +504,8 @@ type StressOp struct {
 	Hold  int   `json:"hold"`
 	// Nest > 0: keep holding and run the next Nest ops (which use strictly larger single keys) inside
 	Nest int `json:"nest,omitempty"`
+	// Multi: Locks/RLocks even for a one-key list (flat programs on the generic lockers only)
+	Multi bool `json:"multi,omitempty"`
 }
 
 type CaseStress struct {
@@ -518,6 +529,7 @@ func GenStress(t *rapid.T) CaseStress {
 				op.Keys = []int{rapid.IntRange(0, c.NKeys-1).Draw(t, "key")}
 			} else {
 				op.Keys = genKeyList(t, c.NKeys, isMultiType(c.Type))
+				op.Multi = len(op.Keys) == 1 && isMultiType(c.Type) && rapid.IntRange(0, 3).Draw(t, "multi1") == 0
 			}
 			prog = append(prog, op)
 		}
@@ -605,7 +617,8 @@ func ExecStress(c CaseStress) *vkit.Result {
 				i++
 				continue
 			}
-			lk.lock(op.Keys, op.Write)
+			multi := op.Multi && lk.multi() && !c.Nested
+			lk.lock(op.Keys, op.Write, multi)
 			enter(g, op.Keys, op.Write)
 			sections.Add(1)
 			for h := 0; h < op.Hold; h++ {
@@ -622,7 +635,7 @@ func ExecStress(c CaseStress) *vkit.Result {
 				consumed = end - i
 			}
 			leave(op.Keys, op.Write)
-			lk.unlock(op.Keys, op.Write)
+			lk.unlock(op.Keys, op.Write, multi)
 			i += consumed
 		}
 		return i
